@@ -444,3 +444,33 @@ def peer_g2_cases(r, n):
             pos[q] = pos[q] + 1 if pos[q] + 1 < nb else 0
         out.append("peer g2 %d %d %d %s" % (ln, r.randrange(250), r.choice([7, 7, s]), " ".join(items)))
     return out
+
+
+def peer_reject_cases(r, n):
+    """the server application turns the first upload down (4.01, 4.03; 4.01 + Echo) and a second
+    upload of ANOTHER body follows to the same resource, under the same Request-Tag (or none; with
+    Echo - where the completed lg_srcv is kept for the client's retry - under a new tag)"""
+    out = []
+    for _ in range(n):
+        s = r.choice([0, 1, 2])
+        c = chunk(s)
+        ln = r.randrange(2, 6) * c + r.choice([-1, 0, 1, r.randrange(-c + 1, c)])
+        nb = (ln + c - 1) // c
+        mode = r.choice([3, 3, 7, 5])
+        t1 = r.choice(["-", "4", "9"])
+        t2 = t1 if mode != 5 else ("8" if t1 != "8" else "7")
+        if mode == 5 and t1 == "-":
+            t1, t2 = "4", "8"
+        items = []
+        for (tag, bidx) in ((t1, 11), (t2, 12), (t2, 13)):
+            order = list(range(nb))
+            if r.random() < 0.4:
+                r.shuffle(order)
+            for b in order:
+                off = b * c
+                l = min(c, ln - off)
+                items.append("%d/%d/%d/%s/%d/%d/%s/%d" % (b, 1 if off + c < ln else 0, s, ln, off, l, tag, bidx))
+        seed = r.randrange(250)
+        out.append(("peer b1 %d %d 7 %d %s" % (ln, seed, mode, " ".join(items)),
+                    "blkpeer b1 %d %d 0 %s" % (ln, seed, " ".join(items))))
+    return out
